@@ -119,7 +119,12 @@ func (ee *exprEval) evalTransform(assign Scope, x *sysl.Expr_Transform_, e *sysl
 	}
 	argValue := Eval(ee, assign, arg)
 	dotValue, hasDot := assign["."]
+	// the scope variable hides an outer variable of the same name only while the transform runs
+	scopeVarValue, hasScopeVar := assign[x.Transform.Scopevar]
 	defer func() {
+		if hasScopeVar {
+			assign[x.Transform.Scopevar] = scopeVarValue
+		}
 		if hasDot {
 			assign["."] = dotValue
 		}
